@@ -599,7 +599,7 @@ IMPORTS = "From SV Require Import C19.Common C19.A_Anneal C19.A_Lns C19.A_Tabu C
 # ====================================================================================== generators
 def gen_case(rng, solver, big=False):
     max_iter = rng.choice([0, 1, 2, 3, 5, 8, 8, 12, 12, 20, 20, 30, 30, 40] + ([45, 60, 60] if big else []))
-    case = {"solver": solver, "seed": rng.choice([0, 1, 2, 7, 42, rng.randrange(10**6)]), "cb_seed": rng.randrange(10**6),
+    case = {"solver": solver, "seed": rng.choice([0, 1, 2, 7, 42, rng.randrange(10**6), rng.randrange(10**6), None if rng.random() < 0.3 else 3]), "cb_seed": rng.randrange(10**6),
             "minimize": rng.random() < 0.5, "max_iter": max_iter, "progress": gen_progress(rng, max_iter)}
     if solver == "anneal":
         sp = gen_space(rng)
@@ -720,8 +720,8 @@ def run_part_a(ctx: Ctx):
                     ctx.known_hit(KNOWN_LNS, f"{w} (case seed {case['seed']})")
                     continue
                 bad = bad or f"{case['solver']} {tag} run: {w}"
-        bad = bad or judge_mirror(a, b) and f"{case['solver']}: {judge_mirror(a, b)}"
-        if case["seed"] is not None:
+        if case["seed"] is not None:  # seed=None: fresh entropy per run, only the per-run clauses apply
+            bad = bad or judge_mirror(a, b) and f"{case['solver']}: {judge_mirror(a, b)}"
             bad = bad or judge_det(a, c) and f"{case['solver']}: {judge_det(a, c)}"
         if bad:
             ctx.violation(bad, {"case": case, "impl": {"primary": a.get("result") or a.get("error"), "mirror": b.get("result") or b.get("error")}})
@@ -775,7 +775,7 @@ def run_part_a(ctx: Ctx):
             else:
                 case = gen_case(ctx.rng, ctx.rng.choice(SOLVERS), True)
             a, b, c = run_case(case)
-            w = judge(case, a) or judge(case, b) or judge_mirror(a, b) or judge_det(a, c)
+            w = judge(case, a) or judge(case, b) or (case["seed"] is not None and (judge_mirror(a, b) or judge_det(a, c)))
             if w:
                 ctx.violation(f"{case['solver']}: {w}", {"case": case, "impl": {"primary": a.get("result") or a.get("error"),
                                                                               "mirror": b.get("result") or b.get("error")}})
@@ -817,7 +817,7 @@ def replay(obj):
         print("   oracle:", w or "ok")
         rc |= 1 if w else 0
     for w in (judge_mirror(a, b), judge_det(a, c)):
-        if w:
+        if w and case.get("seed") is not None:
             print("   oracle:", w)
             rc = 1
     return rc
